@@ -41,6 +41,75 @@ def conn_close_calls(model):
     return out
 
 
+def per_round_close(model) -> dict:
+    """Does every round of the I/O loop close what a wake-up would close?  {'closed': bool,
+    'closing': bool}: a close_connection_socket(<c>) in Node._handle_connections that is not under
+    the interrupt-pipe branch and holds for <c>.state == PEER_CLOSED (resp. PEER_CLOSING with
+    nothing queued and an empty buffer), inside the loop over all connections.  While both exist,
+    a wake-up that is lost, late or unspecific delays the close by at most one wakeup interval;
+    the rules about the wake-up protocol are then not necessary conditions of any property and
+    only report (they decide again as soon as the per-round close is gone)."""
+    from ..atoms import Atomizer, must_facts
+    nc = model.cls("node.node", "Node")
+    hc = nc.methods.get("_handle_connections")
+    out = {"closed": False, "closing": False}
+    if hc is None:
+        return out
+    g = cfg_of(hc)
+    at = Atomizer(model, hc.module, nc)
+    peer_mod = model.module("node.peer")
+    CLOSED, CLOSING = model.fold_name(peer_mod, "PEER_CLOSED"), model.fold_name(peer_mod, "PEER_CLOSING")
+    for n in g.nodes:
+        for c in n.calls():
+            if A.call_name(c) == "self.close_connection_socket" and c.args:
+                cv = A.dotted(c.args[0])
+                fx = must_facts(g, at, n)
+                if any("interrupt_read" in str(f_[0]) + str(f_[2]) for f_ in fx):
+                    continue
+                if not any(isinstance(w, ast.For) and "connections" in ast.unparse(w.iter)
+                           and "ready_" not in ast.unparse(w.iter) for w in _ancestors(hc.node, n.ast)):
+                    continue
+                if (f"{cv}.state", "==", CLOSED, True) in fx:
+                    out["closed"] = True
+                if (f"{cv}.state", "==", CLOSING, True) in fx and (f"len({cv}.write_buffer)", "==", 0, True) in fx \
+                        and (f"{cv}.has_queued_messages", "truthy", None, False) in fx:
+                    # the write-ready / after-send sites hold these facts too, but only for sockets
+                    # select() reported: count only a site that is not under a readiness loop
+                    if not any("ready_w" in str(f_) or "ready_r" in str(f_) for f_ in fx) and not any(
+                            isinstance(w, ast.For) and ("ready_w" in ast.unparse(w.iter) or "ready_r" in ast.unparse(w.iter))
+                            for w in _ancestors(hc.node, n.ast)):
+                        out["closing"] = True
+    return out
+
+
+def wake_fail(ctx: Ctx, *args, **kw):
+    """ctx.fail for a rule about the wake-up protocol: decisive only while closing a connection
+    depends on its wake-up (see per_round_close); otherwise recorded as a note."""
+    model = ctx.model
+    prc = getattr(model, "_per_round_close", None)
+    if prc is None:
+        prc = per_round_close(model)
+        try:
+            model._per_round_close = prc
+        except Exception:
+            pass
+    if prc["closed"] and prc["closing"]:
+        cons = args[0] if args else kw.get("construct")
+        msg = args[2] if len(args) > 2 else kw.get("message", "")
+        ctx.note(f"wake-up protocol, not decisive while every round of the I/O loop closes CLOSED / drained "
+                 f"CLOSING connections: {cons}: {str(msg)[:160]}")
+        return
+    ctx.fail(*args, **kw)
+
+
+def _ancestors(fn, node):
+    par = A.parents(fn)
+    x = node
+    while x in par:
+        x = par[x]
+        yield x
+
+
 def closed_connections_are_removed(ctx: Ctx, rule: str):
     """Every close of a connection object in node.py is either signalled to the I/O
     loop (which then closes the socket and removes the table entries) or happens on a
@@ -66,7 +135,7 @@ def closed_connections_are_removed(ctx: Ctx, rule: str):
         if not st_ or not sg_:
             ctx.fail(cons, cl_.loc(), "close() does not store PEER_CLOSED and wake the I/O loop", rule=rule)
         elif not all(gc_.dominated(s_, st_) for s_ in sg_):
-            ctx.fail(cons, gc_.loc(sg_[0]), "close() wakes the I/O loop before the state is PEER_CLOSED: "
+            wake_fail(ctx, cons, gc_.loc(sg_[0]), "close() wakes the I/O loop before the state is PEER_CLOSED: "
                      "a wake-up handled in that gap finds nothing to do and the connection is never "
                      "removed from the node's tables", rule=rule)
     for f, call in conn_close_calls(model):
@@ -98,7 +167,7 @@ def closed_connections_are_removed(ctx: Ctx, rule: str):
             continue
         if not reaches and regs:
             continue
-        ctx.fail(cons, g.loc(node),
+        wake_fail(ctx, cons, g.loc(node),
                  f"`{ast.unparse(call)}` in {f.qualname} closes the connection object without "
                  f"signalling the I/O loop and without close_connection_socket/"
                  f"remove_peer_connection on the same path: the connection stays in "
@@ -499,6 +568,20 @@ def route_answer_discipline(ctx: Ctx, rule: str):
                      f"the same request): Application.send_answer fails with a bare KeyError instead "
                      f"of the not-routable error", rule=rule,
                      expected="try: del ... except KeyError: raise NotRoutable(...)")
+    # send_message, the next call of send_answer, cleans the record up for answers sent directly:
+    # one tolerant operation, not membership tests followed by `del` (the table of the connection
+    # can be removed by the node thread between them)
+    smf = nc.methods.get("send_message")
+    if want_error_type and smf is not None:
+        cons_s = "send_message:pending-cleanup-tolerant"
+        ctx.inst(cons_s, rule=rule)
+        for x in A.walk_no_nested(smf.node):
+            if isinstance(x, ast.Delete) and any("_peer_waiting_answer" in ast.unparse(t) for t in x.targets):
+                ctx.fail(cons_s, smf.loc(x), f"`{ast.unparse(x)}` in send_message follows membership tests on "
+                         f"the same table: remove_peer_connection popping the connection's table in "
+                         f"between makes Application.send_answer fail with a bare KeyError instead of "
+                         f"the not-routable error", rule=rule,
+                         expected="self._peer_waiting_answer.get(ident, {}).pop(key, None)")
     # the removal is the atomic test-and-remove: it fails when the record is already gone
     cons_a = "route_answer:removal-is-exclusive"
     ctx.inst(cons_a, rule=rule)
@@ -865,6 +948,8 @@ def wakeup_tokens_all_handled(ctx: Ctx, rule: str):
     wr = [n for n in ast.walk(da.node) if isinstance(n, ast.Call) and A.call_name(n) == "os.write"]
     if tok is None or len(wr) != 1 or len(wr[0].args) != 2 \
             or ast.unparse(wr[0].args[1]).replace(" ", "") != "bytes.fromhex(self.ident)":
+        # decisive whatever closes connections: an id that is not an even number of hex digits
+        # makes bytes.fromhex raise in the thread that asks for attention (the writer thread ends)
         ctx.fail(cons, da.loc(), "demand_attention does not write the connection id "
                  "(bytes.fromhex(self.ident)) of a fixed size to the interrupt pipe", rule=rule)
         return
@@ -873,14 +958,14 @@ def wakeup_tokens_all_handled(ctx: Ctx, rule: str):
     cons = "self-pipe:reader"
     ctx.inst(cons, rule=rule, sample={"reads": [ast.unparse(r) for r in reads]})
     if len(reads) != 1 or len(reads[0].args) != 2:
-        ctx.fail(cons, hc.loc(), f"expected one os.read(self.interrupt_read, n) in _handle_connections, "
+        wake_fail(ctx, cons, hc.loc(), f"expected one os.read(self.interrupt_read, n) in _handle_connections, "
                  f"found {len(reads)}", rule=rule)
         return
     n_ = model.try_fold(reads[0].args[1], hc.module)
     if n_ == tok:
         return
     if not isinstance(n_, int) or n_ < tok or n_ % tok:
-        ctx.fail(cons, hc.loc(reads[0]), f"the reader takes {n_!r} bytes from the pipe, wake-ups are "
+        wake_fail(ctx, cons, hc.loc(reads[0]), f"the reader takes {n_!r} bytes from the pipe, wake-ups are "
                  f"{tok} bytes: ids are split across reads", rule=rule)
         return
     # batched read: all tokens must be iterated, no early exit
@@ -892,7 +977,7 @@ def wakeup_tokens_all_handled(ctx: Ctx, rule: str):
     loops = [l for l in ast.walk(hc.node) if isinstance(l, ast.For) and buf is not None
              and any(isinstance(x, ast.Name) and x.id == buf for x in ast.walk(l.iter))]
     if buf is None or not loops:
-        ctx.fail(cons, hc.loc(reads[0]), f"up to {n_ // tok} wake-ups are read at once but only one "
+        wake_fail(ctx, cons, hc.loc(reads[0]), f"up to {n_ // tok} wake-ups are read at once but only one "
                  f"connection id is taken from them: the other connections' wake-ups are lost (a "
                  f"CLOSED/CLOSING connection signalled in the same batch is never torn down)", rule=rule)
         return
@@ -900,7 +985,7 @@ def wakeup_tokens_all_handled(ctx: Ctx, rule: str):
     step_ok = isinstance(lp.iter, ast.Call) and A.call_name(lp.iter) == "range" and len(lp.iter.args) == 3 \
         and model.try_fold(lp.iter.args[2], hc.module) == tok
     if not step_ok:
-        ctx.fail(cons + "#step", hc.loc(lp), f"the batched wake-ups are not walked in steps of {tok} "
+        wake_fail(ctx, cons + "#step", hc.loc(lp), f"the batched wake-ups are not walked in steps of {tok} "
                  f"bytes over the whole buffer", rule=rule)
 
     def exits(body, depth=0):
@@ -923,7 +1008,7 @@ def wakeup_tokens_all_handled(ctx: Ctx, rule: str):
                     yield from exits(h.body)
     ex = list(exits(lp.body))
     if ex:
-        ctx.fail(cons + "#early-exit", hc.loc(ex[0]), f"the loop over the batched wake-ups is left "
+        wake_fail(ctx, cons + "#early-exit", hc.loc(ex[0]), f"the loop over the batched wake-ups is left "
                  f"early (`{ast.unparse(ex[0])}`): the ids queued behind that position are dropped, "
                  f"e.g. the wake-up of a connection whose DPA has arrived is lost and it lingers "
                  f"until the wait timeout", rule=rule)
@@ -1215,7 +1300,8 @@ def io_loop_every_round(ctx: Ctx, rule: str, want=("timers", "reconnect")):
     work = {}
     if "timers" in want:
         its = [n for n in g.nodes if n.kind == "iter" and "connections" in ast.unparse(n.ast.iter)
-               and any(m.has_call("_check_timers") for l, m in n.succ if l == "iter")]
+               and any(m.has_call("_check_timers") for m in
+                       g.reach([d for l, d in n.succ if l == "iter"], blocked=[n]))]
         work["timers"] = (its, "the timer pass (`for conn in connections: _check_timers(conn)`)",
                           "time-outs of the capabilities exchange, the watchdog and the idle "
                           "clock never fire on a node whose select() rounds always carry events")
@@ -1526,9 +1612,12 @@ def realm_key_case(ctx: Ctx, rule: str):
                 continue
 
             def lowered(e, depth=3):
-                if isinstance(e, ast.Call) and isinstance(e.func, ast.Attribute) \
-                        and e.func.attr in ("lower", "casefold") and not e.args:
-                    return True
+                x_ = e
+                while isinstance(x_, ast.Call) and isinstance(x_.func, ast.Attribute) \
+                        and x_.func.attr in ("lower", "casefold", "decode", "strip"):
+                    if x_.func.attr in ("lower", "casefold"):
+                        return True         # folded before or after decoding
+                    x_ = x_.func.value
                 if isinstance(e, ast.Name) and depth > 0:
                     ds = [d.value for d in A.walk_no_nested(fn_.node) if isinstance(d, ast.Assign)
                           and any(isinstance(t, ast.Name) and t.id == e.id for t in d.targets)]
@@ -1544,6 +1633,25 @@ def realm_key_case(ctx: Ctx, rule: str):
                                       for f_, x, lo, t in sites][:12])
     for f_, x, lo, t in sites:
         ctx.inst(f"{cons}@{f_.name}", rule=rule, nontrivial=False)
+    # names RECEIVED from peers are bytes: folded as bytes (ASCII letters only) before they are
+    # decoded - str.lower() on the decoded text also maps non-ASCII characters onto ASCII letters
+    # (U+212A KELVIN SIGN onto "k"), so a name that is not ours would be taken for ours
+    cons_f = "received-names:ascii-fold"
+    ctx.inst(cons_f, rule=rule)
+    for fn_ in nc.all_funcs:
+        for x in A.walk_no_nested(fn_.node):
+            if isinstance(x, ast.Call) and isinstance(x.func, ast.Attribute) and x.func.attr in ("lower", "casefold") \
+                    and isinstance(x.func.value, ast.Call) and isinstance(x.func.value.func, ast.Attribute) \
+                    and x.func.value.func.attr == "decode":
+                src = ast.unparse(x.func.value.func.value)
+                if any(k in src for k in ("origin_host", "destination_realm", "dest_realm", "origin_realm",
+                                          "destination_host")):
+                    ctx.fail(cons_f, fn_.loc(x), f"`{ast.unparse(x)[:80]}` lower-cases the DECODED name: "
+                             f"str.lower() maps U+212A (KELVIN SIGN) to 'k' and other non-ASCII letters "
+                             f"onto ASCII ones, so a received name that differs from a configured one "
+                             f"only in such a character is matched (a request for a foreign realm is "
+                             f"delivered, an unknown peer is accepted as a known one)", rule=rule,
+                             expected="<bytes>.lower().decode(...)", observed=ast.unparse(x)[:60])
     kinds = {lo for _, _, lo, _ in sites}
     if kinds == {False}:
         f0, x0 = sites[0][0], sites[0][1]
@@ -1753,6 +1861,29 @@ def wakeup_pipe_cannot_block(ctx: Ctx, rule: str):
                                                  ("BlockingIOError", "OSError", "Exception")) for h in t.handlers)
     ctx.inst(cons, rule=rule, sample={"io_thread_reaches_writer": io_writes, "write_end_non_blocking": nonblock,
                                       "writer_tolerates_full_pipe": tolerant})
+    # a writer that gives up on a full pipe loses that wake-up: what only a wake-up closes (a
+    # PEER_CLOSED connection, a drained PEER_CLOSING one) must then be closed by the loop itself
+    from ..atoms import Atomizer, must_facts
+    gl = cfg_of(hc)
+    atl = Atomizer(model, hc.module, nc)
+    CLOSED = model.fold_name(model.module("node.peer"), "PEER_CLOSED")
+    backstop = False
+    for n in gl.nodes:
+        for c in n.calls():
+            if A.call_name(c) == "self.close_connection_socket" and c.args:
+                cv = A.dotted(c.args[0])
+                fx = must_facts(gl, atl, n)
+                if (f"{cv}.state", "==", CLOSED, True) in fx and not any(
+                        "interrupt_read" in str(f_[0]) + str(f_[2]) for f_ in fx):
+                    backstop = True
+    cons_b = "self-pipe:lost-wake-up-backstop"
+    ctx.inst(cons_b, rule=rule, sample={"writer_drops_on_full_pipe": tolerant, "per_round_close_of_CLOSED": backstop})
+    if tolerant and nonblock and not backstop:
+        ctx.fail(cons_b, hc.loc(), "demand_attention drops its token when the wake-up pipe is full, and the "
+                 "I/O loop closes a PEER_CLOSED connection (a drained PEER_CLOSING one) only when it "
+                 "reads that connection's own token: a connection closed while the node is far behind "
+                 "with its wake-ups stays open and registered for ever", rule=rule,
+                 expected="a close of CLOSED / drained CLOSING connections in every round of the loop")
     if io_writes and not (nonblock and tolerant):
         ctx.fail(cons, da.loc(), "PeerConnection.demand_attention is reachable from the I/O thread "
                  "(_connect_to_peer on every re-dial, conn.close() after a failed write) and writes to "
@@ -1819,3 +1950,45 @@ def ready_substate_transitions_atomic(ctx: Ctx, rule: str):
                          f"between the test and the store is overwritten - the connection is ready again "
                          f"after its DPA, is offered for routing and accepts application answers",
                          rule=rule, expected="one lock around test and store, shared by every writer of the state")
+
+
+def received_records_rechecked(ctx: Ctx, rule: str):
+    """The receiving side of routed_record_rechecked: _receive_message files the origin record and
+    _receive_app_request the pending record of a request on the connection's reader thread, after
+    the connection's state was looked at; the node thread may have removed the connection - and
+    swept both tables - in between.  Nothing sweeps again, so unless the filer looks again after
+    filing the records stay for the life of the node."""
+    from ..atoms import Atomizer, must_facts
+    model = ctx.model
+    nc = model.cls("node.node", "Node")
+    ctx.rule(rule, "records filed for a received request cannot outlive a connection removed while the "
+                   "request was being handled", floor=2)
+    for fname, table in (("_receive_message", "_origin_waiting_answer"), ("_receive_app_request", "_peer_waiting_answer")):
+        f = nc.methods.get(fname)
+        cons = f"{fname}:record-rechecked({table})"
+        ctx.inst(cons, rule=rule)
+        if f is None:
+            ctx.error(f"Node.{fname} not found", rule=rule)
+            continue
+        ctx.use(f)
+        g = cfg_of(f)
+        at = Atomizer(model, f.module, nc)
+        conn = [a.arg for a in f.node.args.args][1]
+        files = [n for n in g.nodes if n.kind == "stmt" and isinstance(n.ast, ast.Assign) and any(
+            isinstance(t, ast.Subscript) and table in ast.unparse(t.value) or
+            (isinstance(t, ast.Subscript) and isinstance(t.value, ast.Name) and table in
+             A.resolve_local_chain(f.node, t.value)) for t in n.ast.targets)]
+        if not files:
+            continue
+        st = files[-1]
+        after = g.reach([d for l, d in st.succ if l not in ("exc", "raise")])
+        rechecks = [n for n in after if n.kind == "test" and n.ast is not None
+                    and f"{conn}.ident" in n.text(200) and "self.connections" in n.text(200)]
+        locked = any(isinstance(w, ast.With) and any("lock" in ast.unparse(i.context_expr).lower() for i in w.items)
+                     for w in st.lexical)
+        if not rechecks and not locked:
+            ctx.fail(cons, g.loc(st), f"`{st.text(70)}` files the record on the connection's reader thread and "
+                     f"never looks again: a connection removed by the node thread between the state check "
+                     f"of the dispatcher and this statement has been swept already, and the record stays "
+                     f"in Node.{table} for the life of the node", rule=rule,
+                     expected="after filing: `if conn.ident not in self.connections:` take the record back")
